@@ -36,8 +36,8 @@ CHECKS.update({
    note="Trusted: Coq kernel, hand model of the 8 rule modules tied by trace correspondence, extraction, harness. Termination and seat count are _partial (oracle + correspondence, CPU budget for rational Meek).",
    technique="Coq Hoare-logic proof over a hand model + differential correspondence + oracle", ref="DESIGN.md §6 C01"),
  'C02': dict(
-   text="WHOLE-RUN Coq theorem for all Gregory-family rules (wigm, wigm-prf, wigm-prf-batch, scotland, cfer, cfer-batch, mpls) under Fixed / integer / Guarded(guard 0), every well-formed profile, every fuel, axiom-free: in every state a count reaches without crashing and in every snapshot it has recorded, tallies + non-transferable never exceed the ballots cast and no tally is negative (Hoare-logic proof over the rule command trees of the invariant 'tally = value of the ballots standing with the candidate', Proofs/Conserve.v + ConserveCount.v: ballot loop, surplus transfer with both truncations, exclusions, sure-loser batches chosen in one statement group and transferred in another, CfER's transfer of every pending surplus in one round, Minneapolis' elect-and-transfer). Per micro-operation for all integer-carrier arithmetics: a transferred ballot is credited exactly once at unchanged weight; re-weighted ballots are worth at most the surplus and each loses < 2 units; a Meek/Warren distribution conserves votes exactly. Meek family, QPQ, rational arithmetic, Guarded with guard>0, and the < 2 ulp loss bound per action: values-scope correspondence + conservation oracle.",
-   note="Whole-run for the Gregory family; Meek/QPQ _partial (per-distribution theorem + oracle + correspondence). The profile hypothesis wf_profile (distinct ids, non-negative multipliers, rankings name non-withdrawn candidates) is what the reader model proves of accepted files (C16) but the two models are not yet linked inside Coq.",
+   text="WHOLE-RUN Coq theorem for all Gregory-family rules (wigm, wigm-prf, wigm-prf-batch, scotland, cfer, cfer-batch, mpls) under Fixed / integer / Guarded(guard 0), every well-formed profile, every fuel, axiom-free: in every state a count reaches without crashing and in every snapshot it has recorded, tallies + non-transferable never exceed the ballots cast and no tally is negative (Hoare-logic proof over the rule command trees of the invariant 'tally = value of the ballots standing with the candidate', Proofs/Conserve.v + ConserveCount.v: ballot loop, surplus transfer with both truncations, exclusions, sure-loser batches chosen in one statement group and transferred in another, CfER's transfer of every pending surplus in one round, Minneapolis' elect-and-transfer). Per micro-operation for all integer-carrier arithmetics: a transferred ballot is credited exactly once at unchanged weight; re-weighted ballots are worth at most the surplus and each loses < 2 units; a Meek/Warren distribution conserves votes exactly. WHOLE-RUN for meek and warren (Guarded with any guard, strict and equal-rank ballots): every 'iterate' snapshot has tallies + residual = ballots cast exactly (Proofs/MeekRun.v + MeekCount.v). meek-prf, QPQ, rational arithmetic, Gregory under Guarded with guard>0, and the < 2 ulp loss bound per action: values-scope correspondence + conservation oracle.",
+   note="Whole-run for the Gregory family and for meek/warren iterations; meek-prf/QPQ _partial (per-distribution theorem + oracle + correspondence). The profile hypothesis wf_profile (distinct ids, non-negative multipliers, rankings name non-withdrawn candidates) is what the reader model proves of accepted files (C16) but the two models are not yet linked inside Coq.",
    technique="Coq whole-run Hoare proof over a hand model + per-operation theorems + differential correspondence + oracle", ref="DESIGN.md §6 C02"),
  'C03': dict(
    text="The Coq model of each statutory rule is the published procedure written as a command tree over the proved decimal arithmetic; the ENTIRE stage-by-stage trace of the implementation (actions, messages, quota, every tally to the last digit, every ballot weight) must equal it on every generated election; clause theorems (quota A.1/46, transfer values B.3+D.4/48(3), lowest candidate, tie-break) are proved for the statutory parameters; wigm(fixed,4) vs wigm-prf histories are compared directly.",
@@ -60,9 +60,9 @@ CHECKS.update({
    note="_partial for whole-run and for batches; Guarded fuzzy comparisons covered by correspondence only.",
    technique="Coq proof per micro-operation + differential correspondence + metamorphic oracle", ref="DESIGN.md §6 C07"),
  'C08': dict(
-   text="Coq theorems: a Meek/Warren/meek-prf distribution over strict ballots credits candidates + residual with exactly the ballots' multipliers (per ballot and over all ballots). The keep-factor update of meek/warren never leaves an elected candidate above 1 (theorem for Fixed/integer/Guarded guard 0, after fix F12 a1b6d58 which the thorough tier's counter-examples prompted; the former witness is re-evaluated inside Coq); the lower bound kf > 0 fails under guarded arithmetic with guard>0 (open finding K1). Exits, equal rankings, meek-prf kf range, non-negativity: values-scope correspondence + oracle.",
-   note="_partial; K1 open finding.",
-   technique="Coq proof per micro-operation + differential correspondence + oracle", ref="DESIGN.md §6 C08"),
+   text="WHOLE-RUN Coq theorem for meek and warren (Fixed / integer / Guarded with ANY guard, strict and equal-rank ballots, every well-formed profile, every fuel, axiom-free): every 'iterate' snapshot a count records has tallies + residual = ballot papers cast, exactly (Hoare proof over the meek command tree of the invariant 'candidates that are neither hopeful nor elected hold no votes and a zero keep factor; multipliers sum to the papers cast'; the distribution theorem covers strict ballots and the recursive equal-rank split; Proofs/MeekRun.v + MeekCount.v). Per micro-operation: a Meek/Warren/meek-prf distribution over strict ballots credits candidates + residual with exactly the ballots' multipliers (per ballot and over all ballots). The keep-factor update of meek/warren never leaves an elected candidate above 1 (theorem for Fixed/integer/Guarded guard 0, after fix F12 a1b6d58 which the thorough tier's counter-examples prompted; the former witness is re-evaluated inside Coq); the lower bound kf > 0 fails under guarded arithmetic with guard>0 (open finding K1). Exits, equal rankings, meek-prf kf range, non-negativity: values-scope correspondence + oracle.",
+   note="Conservation clause whole-run for meek/warren; kf range, exits and meek-prf _partial; K1 open finding.",
+   technique="Coq whole-run Hoare proof over a hand model + per-operation theorems + differential correspondence + oracle", ref="DESIGN.md §6 C08"),
  'C09': dict(
    text="Whole-run Coq theorem (all rules, arithmetics, profiles, fuel): round numbers in the record never decrease and every recorded round lies between 0 and the current round (monotone-history preorder lifted by exec_steps); for every rule except QPQ (whose restart un-elects, as the property allows) statuses only move forward between ANY two snapshots of a count that ends normally, from the initial statuses to each snapshot and from each snapshot to the final statuses (hopeful -> elected[pending -> not pending] | defeated; withdrawn fixed). Seats are never over-committed: whole-run theorem for wigm, wigm-prf, wigm-prf-batch and scotland under Fixed/integer/Guarded(guard 0) -- a count that ends normally has elected at most `seats` candidates (every winner of the main loop holds the quota, the quota exceeds ballots/(seats+1), no votes are created, the epilogues elect only while seats remain). The bound is FALSE for meek under guarded arithmetic with guard>0 (refuted Example inside Coq: 4 elected for 3 seats; open finding K13). Seat bounds for cfer/mpls/Meek/QPQ, under-commitment, QPQ transitions and crashed runs: states-scope correspondence + transition oracle on every pair of consecutive snapshots.",
    note="Seat-bound clause _partial (oracle + correspondence + machine-checked refutation for meek/guarded).",
